@@ -383,7 +383,7 @@ def gen_doc(rng: random.Random, n_blocks=None, globals_p=0.5, cc=True, copies=Tr
                 stmts.append([k, rng.choice(["PythiaGenericParam", "PythiaAliasParam", "PythiaBothParam"]), rng.choice(["ParticleDecays", "StringZ", "A"]),
                               rng.choice(["mixB", "usePowerLaw", "b"]), rng.choice([["word", "off"], ["word", "on"], ["num", "0.5"], ["num", "1"], ["word", "inf"], ["word", "x9"]])])
             elif k == "jetset":
-                stmts.append([k, f"{rng.choice(['PARJ', 'MSTJ', 'MSTU'])}({rng.randint(1, 99)})", rng.choice(["0.36", "12", "1", "-3", "2E-4", "+7"])])
+                stmts.append([k, f"{rng.choice(['PARJ', 'MSTJ', 'MSTU'])}({rng.randint(1, 99)})", rng.choice(["0.36", "12", "1", "-3", "2E-4", "+7", "07", "010", "-012", "00", "05.50", "0"])])
             elif k == "ls_def":
                 stmts.append([k, rng.choice(["LSFLAT", "LSNONRELBW", "LSMANYDELTAFUNC"]), n])
             elif k == "inc_factor":
